@@ -141,7 +141,7 @@ def run(tier: str, only=None) -> int:
     rep.rule.append("worker activity x exec model x every byte offset of the initiator->worker stream (bootstrap line included) as the moment the initiator dies, plus close_write only, x schedules within bounds; virtual clock runs the whole 5 s / 10 s escalation ladder")
     rep.assumptions += [
         "signal model: SIGINT to the own pid raises KeyboardInterrupt in the main thread at its next scheduling point (CPython semantics for blocking waits)",
-        "process model: a process ends when its main thread returns (helper threads are daemon-like), os._exit ends it at once, ending closes all descriptors",
+        "process model: a process ends when its main thread has returned and no non-daemon thread is left (threads started through the exec model are daemon threads), os._exit ends it at once, ending closes all descriptors",
         "discrete-event virtual time",
         "non-daemon user threads and uninterruptible C calls are outside the property's quantifier",
     ]
